@@ -163,7 +163,7 @@ theorem potential_visit (V : View) (hwf : V.WF) (U : List Int) (alg : Alg) (si :
       have hel : elemW V si.idx = 1 := by simp [elemW, hn]
       by_cases hd : si.dist = 0
       · simp only [hd, ne_eq, not_true_eq_false, if_false]
-        cases follow <;> simp [htgt, hd] <;> omega
+        cases follow <;> simp [htgt] <;> omega
       · simp only [ne_eq, hd, not_false_eq_true, if_true]
         cases hnx : V.next si.idx with
         | none => cases follow <;> simp [htgt] <;> omega
